@@ -17,6 +17,14 @@
 //! which is compared with the full model answer on EVERY other structural case of the run (`oracle_report` lines); `exec`
 //! additionally re-runs the previous case after a share of the cases (implicit A–B–A).  `append_self` / `insert_self` pass the
 //! receiver itself as the `values` argument (aliasing).
+//!
+//! Robustness streams, part 3: `g call…` lines are GIANT requests (2^17 … 2.2·10^6 elements; the receiver is only named in the line,
+//! `iota:<shape>` / `zpad:<n>,<l>,<r>`, and built by the harness) for every operation, flat and along first / middle / last axes of
+//! ranks 1-4, judged IN PLACE (nothing is printed but the first differing position) by the same native reference; every structural
+//! case additionally runs on element types of unusual LAYOUT (12-, 3-, 6-byte tuples, the 32-byte non-Copy Tuple2<String,i32>, a
+//! 40-byte tuple; lib's `on_layouts_arr!` for the single-array operations), on an all-zero f64 image (+0.0 / -0.0 by parity: all
+//! elements `==`, none bit-identical to its neighbour) and on strings with a 40-byte common stem; ±0 / constant lanes for
+//! `trim_zeros`; constant and paired receivers; indices whose product with a stride or the element size wraps modulo 2^64.
 use arrharness::*;
 use std::panic::{catch_unwind, AssertUnwindSafe};
 
@@ -1122,6 +1130,8 @@ fn nontrivial(op: &str, args: &[&str]) -> bool {
 }
 
 fn main() {
-    harness_main(Spec { prop: "C13", gen, exec, nontrivial, hang_secs: 20,
-        rule: "every shape rank<=4 len<=3 (+ lengths 4-5): delete along every axis for EVERY subset of its indices (+ reversed / repeated requests, out-of-range index and axis), flat delete (every subset when <=6 elements, sampled multisets otherwise); flat insert of 1 value at every position 0..=n, 2-3 values at sampled (also repeated) positions, one value at several positions, several values at one position, malformed; insert-then-delete round trips; append of 0..3 values; repeat along every axis with EVERY count vector in {0,1,2}^d and single counts, flat repeat; trim_zeros on every zero/non-zero pattern up to length 7 (8); seeded random rank 5. Robustness streams: flat delete of 20..4100 DISTINCT positions (shuffled / ascending / descending / with repeats) from lanes of 24..4100 elements, delete along axes of length 65..1030, every operation on big_shapes() (axis lengths 7-17, > 256/1024/4096 elements), flat insert of 20..300 (index,value) pairs with many shared positions (request order observable), zero-length axes for every operation, trim_zeros value classes (+0, -0, NaN, subnormals, infinities, extreme integers, zero-looking strings; exhaustive over {+0,-0,NaN,1} to length 5 (7), random over all classes, lanes up to 4100). Every case runs on i64 tags and on u8 / i16 / i64>2^53 / f64(-0.0) / f32 / String / bool images, plain and Result receiver. Tag arrays.  Part 2: seq lines (calls back to back on one thread: a request followed by a different request of the same length / sum / xor / polynomial hash / 32-bit FNV fingerprint (birthday search), refused-then-valid, A-B-A), n lines (request size x lane length above 2^26, more than 65536 inserted pairs, lanes of 8200..70000 along an axis) judged by the harness-native index-filter reference, which is compared with the full model answer on every other structural case of the run (oracle_report lines); every axis length 1..300 in a non-leading position; indices c+2^8, c+2^16, c+2^32; append_self / insert_self (aliasing); ranks 5-8; implicit A-B-A re-runs in exec. non-trivial = >=2 elements and a non-empty request (seq / n lines: some call of the line)" });
+    // hang watchdog: the slowest correct case (thorough: flat insert of 131 073 pairs, ~6 s under load; quick: `repeat i4100 … 0`, ~3.5 s;
+    // every giant `g` case < 1 s) keeps a margin of more than 20x, also when all checks run in parallel on a loaded machine
+    harness_main(Spec { prop: "C13", gen, exec, nontrivial, hang_secs: 150,
+        rule: "every shape rank<=4 len<=3 (+ lengths 4-5): delete along every axis for EVERY subset of its indices (+ reversed / repeated requests, out-of-range index and axis), flat delete (every subset when <=6 elements, sampled multisets otherwise); flat insert of 1 value at every position 0..=n, 2-3 values at sampled (also repeated) positions, one value at several positions, several values at one position, malformed; insert-then-delete round trips; append of 0..3 values; repeat along every axis with EVERY count vector in {0,1,2}^d and single counts, flat repeat; trim_zeros on every zero/non-zero pattern up to length 7 (8); seeded random rank 5. Robustness streams: flat delete of 20..4100 DISTINCT positions (shuffled / ascending / descending / with repeats) from lanes of 24..4100 elements, delete along axes of length 65..1030, every operation on big_shapes() (axis lengths 7-17, > 256/1024/4096 elements), flat insert of 20..300 (index,value) pairs with many shared positions (request order observable), zero-length axes for every operation, trim_zeros value classes (+0, -0, NaN, subnormals, infinities, extreme integers, zero-looking strings; exhaustive over {+0,-0,NaN,1} to length 5 (7), random over all classes, lanes up to 4100). Every case runs on i64 tags and on u8 / i16 / i64>2^53 / f64(-0.0) / f32 / String / bool images, plain and Result receiver. Tag arrays.  Part 2: seq lines (calls back to back on one thread: a request followed by a different request of the same length / sum / xor / polynomial hash / 32-bit FNV fingerprint (birthday search), refused-then-valid, A-B-A), n lines (request size x lane length above 2^26, more than 65536 inserted pairs, lanes of 8200..70000 along an axis) judged by the harness-native index-filter reference, which is compared with the full model answer on every other structural case of the run (oracle_report lines); every axis length 1..300 in a non-leading position; indices c+2^8, c+2^16, c+2^32; append_self / insert_self (aliasing); ranks 5-8; implicit A-B-A re-runs in exec.  Part 3: g lines = giant requests (2^17..2.2e6 elements, receiver named iota:<shape> / zpad:<n>,<l>,<r> and built by the harness) for flat delete (2..100 distinct indices: both ends, adjacent around 2^20, unsorted with repeats, ascending, descending; ranks 1-4; ladder 200003..2^20+1), delete along first / middle / last axes (lanes above 2^20 and giant arrays with shorter lanes), flat insert + insert/delete round trip, append / append_self, flat repeat (one count, one count per last-axis position), repeat along an axis, trim_zeros, refused requests - judged in place by the same native reference on i64 and one further element type; element-layout images (12 / 3 / 6 / 32 non-Copy / 40 bytes) on every structural case (all five in the small scope); all-zero f64 image with +0.0 / -0.0 by parity, strings with a 40-byte common stem; +-0 and constant lanes for trim_zeros; constant / paired receivers; indices k*2^64/stride + c (stride of a non-last axis, element sizes) that wrap into range. non-trivial = >=2 elements and a non-empty request (seq / n / g lines: some call of the line)" });
 }
